@@ -37,9 +37,9 @@ APP = Application([_Svc], 'tns', in_protocol=HttpRpc(), out_protocol=HttpRpc())
 CTX = fake_ctx(APP)
 
 
-@harness('C03', params=[1, 2, 3, 4], label=lambda n: 'n=%d' % n, tier_params=None,
+@harness('C03', tier_params={'quick': [1, 2, 3, 4], 'thorough': [1, 2, 3, 4, 5, 6]}, label=lambda n: 'n=%d' % n,
          functions=['spyne.protocol.dictdoc.simple._s2cmi'],
-         bounds={'state': 'arbitrary map of n <= 4 (quick) sparse->contiguous entries satisfying the rank '
+         bounds={'state': 'arbitrary map of n <= 4 (quick) / 6 (thorough) sparse->contiguous entries satisfying the rank '
                           'invariant, arbitrary storage order, arbitrary new index (one inductive step)'})
 def s2cmi_step(sx, n):
     """from any valid map, inserting any new sparse index returns its rank and keeps the invariant"""
@@ -77,13 +77,15 @@ PROTS = {
 }
 
 
-@harness('C03', params=[(n, cfg, shape) for n in (1, 2, 3) for cfg in ('default', 'soft', 'hier_delim=_')
-                        for shape in ('Array', 'max_occurs')],
+_AIO = lambda ns: [(n, cfg, shape) for n in ns for cfg in ('default', 'soft', 'hier_delim=_') for shape in ('Array', 'max_occurs')]
+
+
+@harness('C03', tier_params={'quick': _AIO((1, 2, 3)), 'thorough': _AIO((1, 2, 3, 4))},
          label=lambda p: 'n=%d %s %s' % p,
          functions=['spyne.protocol.dictdoc.simple.SimpleDictDocument.simple_dict_to_object',
                     'spyne.protocol.dictdoc.simple.SimpleDictDocument._to_native_values',
                     'spyne.protocol.dictdoc.simple._s2cmi'],
-         bounds={'doc': 'n <= 3 array elements keyed b[<idx>].v with symbolic 1-2 digit sparse indexes (pairwise '
+         bounds={'doc': 'n <= 3 (quick) / 4 (thorough) array elements keyed b[<idx>].v with symbolic 1-2 digit sparse indexes (pairwise '
                         'distinct numeric values), one symbolic digit as value each; plus a scalar member'})
 def array_index_order(sx, p):
     """array elements arrive in numeric index order with their own values, whatever the key order"""
